@@ -173,7 +173,7 @@ def _decimal_chunk(args):
     for i in range(0, imax + 1):
         for j in range(0, imax + 1):
             a, b = i / sc, j / sc
-            for (x, y) in ((a, b), (math.nextafter(a, 2 * a + 1), b), (a, math.nextafter(b, -1.0))):
+            for (x, y) in ((a, b), (math.nextafter(a, 2 * a + 1), b), (a, math.nextafter(b, -1.0)), (-a, b), (a, -b), (-a, -b)):
                 out['n'] += 1
                 es = float(fd(x) + fd(y))
                 ed = float(fd(x) - fd(y))
@@ -186,7 +186,7 @@ def _decimal_chunk(args):
                 if gd != ed and ('d' not in seen):
                     seen.add('d')
                     out['viols'].append(Violation('subtract_floats', {}, {'fn': 'subtract_floats', 'args': [x, y]}, 'subtract_floats(%r, %r) = %r, decimal arithmetic gives %r' % (x, y, gd, ed)).to_json())
-                if (x, y) == (a, b):
+                if (x, y) == (a, b) and True:
                     # plain decimals: the result must be THE decimal (i+j)/10^d
                     if gs != (i + j) / sc and float(F(i + j, sc)) != gs and ('s2' not in seen):
                         seen.add('s2')
